@@ -78,6 +78,7 @@ def gen_case(ctx):
     nodes = sorted({nd for o in ops for nd in o["nodes"]})
     hist = []
     added, deleted, assembled, merged = [], set(), False, False
+    backported_moves = moved_since_assembly = False
     first = list(range(n)) if propagate else rng.sample(range(n), rng.randint(1, n))
     rng.shuffle(first)
     for i in first:
@@ -88,7 +89,9 @@ def gen_case(ctx):
         live = [i for i in added if i not in deleted]
         choices = ["modify_patch", "set_default_patch", "write"]
         if not assembled:
-            if len(added) < n:
+            # (no add after a back-port of moved vertices: an operation added later still has the original corner
+            # positions, so lattice-node identity - which the shadow's vertex moves rely on - would no longer hold)
+            if len(added) < n and not backported_moves:
                 choices += ["add"]
             if len(live) > 1 and not propagate:
                 choices += ["delete", "delete"]
@@ -116,10 +119,14 @@ def gen_case(ctx):
             live_nodes = sorted({nd for i in live for nd in ops[i]["nodes"]})
             ks = rng.sample(live_nodes, min(len(live_nodes), rng.randint(1, 3)))
             hist.append(["move", [[k, [rng.uniform(-0.08, 0.08) for _ in range(3)]] for k in ks]])
+            moved_since_assembly = True
         elif c == "backport":
             hist.append(["backport"])
+            backported_moves = backported_moves or moved_since_assembly
+            moved_since_assembly = False
         elif c == "clear":
             assembled = False
+            moved_since_assembly = False
             hist.append(["clear"])
         elif c == "modify_patch":
             if names:
